@@ -2,6 +2,8 @@ import AdaptiveModel.Drv.Seq
 import AdaptiveModel.Drv.Runner
 import AdaptiveModel.Drv.SaveFs
 import AdaptiveModel.Drv.DataSaver
+import AdaptiveModel.Drv.Avg
+import AdaptiveModel.Drv.Avg1D
 /-!
 Line-protocol driver: `lake env lean --run Driver.lean < ops.txt`.
 Each input line is `<component> <op> <args…>`; one output line per input line.
@@ -9,6 +11,8 @@ Each input line is `<component> <op> <args…>`; one output line per input line.
 structure All where
   seq : Seq.State Int := Seq.init 0
   ds : DataSaver.Drv.D := {}
+  avg : Avg.State Float := Avg.init none none 2
+  a1 : Avg1D.State Float := { minSamples := 0, maxSamples := 0, neighborSampling := 0 }
   run : Runner.State := Runner.init { ntasks := 1, retries := 0, raiseIf := true, blocking := true, doLog := false }
 
 def stepAll (a : All) (line : String) : All × String :=
@@ -16,6 +20,8 @@ def stepAll (a : All) (line : String) : All × String :=
   | "seq" :: rest => let (s, o) := Seq.Drv.stepLine a.seq rest; ({ a with seq := s }, o)
   | "run" :: rest => let (s, o) := Runner.Drv.stepLine a.run rest; ({ a with run := s }, o)
   | "ds" :: rest => let (s, o) := DataSaver.Drv.stepLine a.ds rest; ({ a with ds := s }, o)
+  | "avg" :: rest => let (s, o) := Avg.Drv.stepLine a.avg rest; ({ a with avg := s }, o)
+  | "a1" :: rest => let (s, o) := Avg1D.Drv.stepLine a.a1 rest; ({ a with a1 := s }, o)
   | "save" :: rest => (a, SaveFs.Drv.stepLine rest)
   | _ => (a, "bad-component")
 
